@@ -85,7 +85,10 @@ func c03Layout(r *emit.Rng) ([]float64, string) {
 			x = emit.Up(x)
 		}
 		return bs, "layout:adjacent-ulps"
-	case 9: // single bound
+	case 9: // single bound; the lone +Inf (an explicitly empty layout after trimming), -Inf and NaN are legal corner cases
+		if r.Chance(1, 2) {
+			return []float64{[]float64{math.Inf(1), math.Inf(-1), math.NaN(), 0, math.Copysign(0, -1), math.MaxFloat64}[r.Intn(6)]}, "layout:single-special"
+		}
 		return []float64{r.AnyFloat()}, "layout:single"
 	default: // random sorted
 		n := 1 + r.Intn(70)
